@@ -238,6 +238,8 @@ fn create_buffer(size: usize) -> Box<[u8]> {
 pub mod verif_hook {
   pub static mut READ_OVERRIDE: Option<fn(u16) -> u8> = None;
   pub static mut WRITE_OVERRIDE: Option<fn(u16, u8)> = None;
+  /// observes every bus write without replacing it
+  pub static mut WRITE_TAP: Option<fn(u16, u8)> = None;
 }
 
 #[inline(never)]
@@ -303,6 +305,9 @@ pub extern "sysv64" fn memory_read_byte(areas: *const MemoryAreas, addr: u16) ->
 pub extern "sysv64" fn memory_write_byte(areas: *mut MemoryAreas, addr: u16, value: u8) {
   #[cfg(gb_dynarec_verif)]
   {
+    if let Some(tap) = unsafe { verif_hook::WRITE_TAP } {
+      tap(addr, value);
+    }
     if let Some(write) = unsafe { verif_hook::WRITE_OVERRIDE } {
       return write(addr, value);
     }
